@@ -228,4 +228,136 @@ PROPS = {
                 "distinct = distinct (class, configuration set, digest)",
         "assumptions": ["BatchNumParallel >= 1 or fewer records than BatchSize (known finding C07-batch-hang)"],
     },
+    "C01": {
+        "pending_props": True,
+        "manifest": {
+            "text": "Lean 4: Spec/Answer.lean states the property over records (REFUSED / referral / authoritative answer, "
+                    "wildcard scope, NXDOMAIN, SOA in empty answers); Model/Codec.lean + Model/Serve.lean transcribe the line codec "
+                    "and the query path; theorems in Props/C01.lean tie extracted constants to the documented defaults "
+                    "(facts_match_spec, default_ttl_*), prove the row round trip (extractRR_putrrhead), the four sentences of the "
+                    "statement on the Spec, and the refinement of the v1 walk to the Spec for every store representing a "
+                    "well-formed record set (see the theorem list in the evidence). Correspondence on every run: generated data "
+                    "files compiled by the real cdb/rdb compilers into CDB (combined and per-family prefix sets), RocksDB v1 and "
+                    "v2, queried through ServeDNSWithRCODE; implementation = model = Spec per query (address records "
+                    "relationally), plus pairwise agreement of the four storage configurations.",
+            "note": "Partial: typed-RR (un)packing by miekg is compared on the wire, not proved; the refinement theorem covers "
+                    "the v1 layouts (v2 equivalence is C02); malformed rdata excluded by WellFormed.",
+        },
+        "trusted": COMMON_TRUSTED + [
+            "miekg/dns packing/unpacking of typed RRs and name compression (responses compared on the wire, rdata as re-packed bytes)",
+            "net.ParseIP/ParseCIDR, strconv.ParseUint modelled in Lean on the grammar they accept, validated by the codec correspondence",
+            "RocksDB / CDB present the ordered multimap interface of Model/Store.lean (C15, C16, C07)",
+        ],
+        "rule": "40 (thorough 1500) generated data files (1-3 zones, nested zones, delegations with in/out-of-zone glue, all line "
+                "types with optional fields, wildcards, escapes, half of them with locations/maps/subnets) x 40 queries built "
+                "from the file's own names (exact, ancestors, children, non-wild-safe, case-flipped, unrelated, root) x 15 "
+                "qtypes x classes x max-answer 1-4 on 4 storage configurations; distinct = distinct (op, output shape)",
+        "assumptions": ["data files satisfy WellFormed (DESIGN.md section 6 C01)"],
+    },
+    "C02": {
+        "pending_props": True,
+        "manifest": {
+            "text": "Lean 4: order lemmas for reversed-name keys (ancestor below descendant regardless of location, sandwich "
+                    "lemma, common-label-prefix arithmetic), equivalence of the v2 closest-key map lookup with the label-by-label "
+                    "lookup (incl. wildcard map at the queried name, root wildcard), and of the v2 closest-key search "
+                    "(findGo) with the v1 walk as far as proved (theorem list in the evidence). Correspondence on every run: the "
+                    "four real storage configurations must agree pairwise on every query (this needs no model) and with model "
+                    "and Spec, on files with adversarial key neighbourhoods (sibling labels that are byte-prefixes of each "
+                    "other, the same name in several locations, deep names, maps in every shape).",
+            "note": "Partial: see the theorem list for which equivalences are proved outright and which under hypotheses; compiler "
+                    "option independence is C07.",
+        },
+        "trusted": COMMON_TRUSTED + [
+            "miekg/dns packing/unpacking of typed RRs and name compression (responses compared on the wire, rdata as re-packed bytes)",
+            "net.ParseIP/ParseCIDR, strconv.ParseUint modelled in Lean on the grammar they accept, validated by the codec correspondence",
+            "RocksDB / CDB present the ordered multimap interface of Model/Store.lean (C15, C16, C07)",
+        ],
+        "rule": "30 (thorough 800) adversarial data files x 40 queries x 3 resolvers on 4 storage configurations; distinct = "
+                "distinct (op, output shape)",
+        "assumptions": ["well-formed data files; at most one map id per (map type, owner)"],
+    },
+    "C03": {
+        "pending_props": True,
+        "manifest": {
+            "text": "Lean 4: Spec.lpm (longest declared subnet of the client's family containing it, not longer than the client's "
+                    "prefix) and Spec.mapFor; theorems cidr_laminar, lpm characterisation, exact-before-wildcard map choice, "
+                    "CDB lookup = lpm, and the rearranger / range-point results listed in the evidence (sweep invariant or the "
+                    "verified table checker), with proved negative witnesses for the well-formedness conditions W2/W3. "
+                    "Correspondence: random subnet sets (nested chains, adjacent blocks, edges of the address space, blocks "
+                    "touching ::ffff:0:0/96) compiled into all four storage configurations; Reader.FindLocation at every "
+                    "breakpoint x client prefix lengths (resolver and ECS, incl. raw ECS options with host bits set) = model = "
+                    "Spec.lpm, and pairwise equal.",
+            "note": "Hypotheses W1-W3 (DESIGN.md section 6 C03) are enforced by the generator and are explicit in the theorems.",
+        },
+        "trusted": COMMON_TRUSTED + [
+            "miekg/dns packing/unpacking of typed RRs and name compression (responses compared on the wire, rdata as re-packed bytes)",
+            "net.ParseIP/ParseCIDR, strconv.ParseUint modelled in Lean on the grammar they accept, validated by the codec correspondence",
+            "RocksDB / CDB present the ordered multimap interface of Model/Store.lean (C15, C16, C07)",
+        ],
+        "rule": "60 (thorough 3000) subnet sets of 0-80 blocks x up to 120 clients (block start/end and their neighbours x "
+                "prefix lengths around the declared one, random clients) on 4 storage configurations; distinct = distinct (op, "
+                "output shape)",
+        "assumptions": ["W1 no duplicate (network,length); W2 network :: or 0.0.0.0 only as default route; W3 no IPv6 block "
+                        "other than ::/0 contains ::ffff:0:0/96"],
+    },
+    "C04": {
+        "pending_props": True,
+        "manifest": {
+            "text": "Lean 4: spec_frame (the Spec answer is a function of the records visible to the client's location), "
+                    "serve_v1_frame (two stores that agree on the keys tagged with the client's location or untagged give the "
+                    "same response to every query). Correspondence (metamorphic, implementation vs implementation): a file and an "
+                    "edit of it that touches only records of a foreign location or unrelated maps; every response to a client at "
+                    "location L must be identical before and after, on all four storage configurations, and equal model and Spec.",
+            "note": "Partial: the frame theorem is proved for the v1 layouts; for v2 keys (foreign keys are neighbours in key order) "
+                    "it is covered by the correspondence and by C02's equivalence.",
+        },
+        "trusted": COMMON_TRUSTED + [
+            "miekg/dns packing/unpacking of typed RRs and name compression (responses compared on the wire, rdata as re-packed bytes)",
+            "net.ParseIP/ParseCIDR, strconv.ParseUint modelled in Lean on the grammar they accept, validated by the codec correspondence",
+            "RocksDB / CDB present the ordered multimap interface of Model/Store.lean (C15, C16, C07)",
+        ],
+        "rule": "30 (thorough 800) (file, foreign edit) pairs x 40 queries from a client mapped to location aa; edits: add "
+                "A/NS/SOA/CNAME/TXT/wildcard records tagged ff at and above queried names, unrelated maps and subnets; "
+                "distinct = distinct (op, output shape)",
+        "assumptions": [],
+    },
+    "C10": {
+        "pending_props": True,
+        "manifest": {
+            "text": "Lean 4: scope_bounds, scope_default, scope_zero_without_map, resolver_fallback on Spec.locate and their "
+                    "model counterparts on Loc.ecsLocation / findLocationTop (theorem list in the evidence). Correspondence: "
+                    "queries with/without OPT, ECS family 1/2/0, source lengths, non-zero query scope, extra options (cookie, "
+                    "NSID, unknown), against map/subnet configurations on four storage configurations; OPT presence, ECS "
+                    "fields and scope of every response (incl. REFUSED and cached paths) = model = Spec.",
+            "note": "BADVERS replies carry the bare OPT built by coredns (no ECS): outside the statement's 'response' as the "
+                    "handler composes it; recorded in DESIGN.md.",
+        },
+        "trusted": COMMON_TRUSTED + [
+            "miekg/dns packing/unpacking of typed RRs and name compression (responses compared on the wire, rdata as re-packed bytes)",
+            "net.ParseIP/ParseCIDR, strconv.ParseUint modelled in Lean on the grammar they accept, validated by the codec correspondence",
+            "RocksDB / CDB present the ordered multimap interface of Model/Store.lean (C15, C16, C07)",
+        ],
+        "rule": "30 (thorough 800) files with maps/subnets x 40 queries with EDNS/ECS variety; distinct = distinct (op, output shape)",
+        "assumptions": ["subnets well-formed (C03 W1-W3)"],
+    },
+    "C13": {
+        "pending_props": True,
+        "manifest": {
+            "text": "Lean 4: serve_v1_never_panics (for every store and every wire-valid query name the v1 query path never reaches "
+                    "a Go panic), the v2 counterpart under the key-format hypothesis, reply_shape. Correspondence: wire-valid "
+                    "messages (root, 120-label names, 63-byte labels, any type/class, EDNS versions 0/1/255, option lists, ECS "
+                    "contents incl. family 0) passed through Pack/Unpack and then the real handler under recover, against "
+                    "{empty database, root zone, root delegation, generated files} x four storage configurations: no panic, "
+                    "reply has the query's ID/question/QR, BADVERS for unsupported versions, = model = Spec.",
+            "note": "Partial: packability, truncation and size accounting are miekg/coredns code (explored in C20, not proved).",
+        },
+        "trusted": COMMON_TRUSTED + [
+            "miekg/dns packing/unpacking of typed RRs and name compression (responses compared on the wire, rdata as re-packed bytes)",
+            "net.ParseIP/ParseCIDR, strconv.ParseUint modelled in Lean on the grammar they accept, validated by the codec correspondence",
+            "RocksDB / CDB present the ordered multimap interface of Model/Store.lean (C15, C16, C07)",
+        ],
+        "rule": "30 (thorough 600) databases (8 special, the rest generated) x 40 queries incl. 10 extreme ones each; distinct = "
+                "distinct (op, output shape)",
+        "assumptions": [],
+    },
 }
